@@ -11,7 +11,8 @@ from rtc import gen
 
 
 BUDGET = (120, 900)     # wall-clock guard in seconds (quick, thorough)
-BOUNDS = 'index maps exhaustive for q*d <= 10 (quick) / 12 (thorough); conversions d<=3, q<=3, r<=5, 4 (e, cap) settings'
+BOUNDS = ('index maps exhaustive for q*d <= 10 (quick) / 12 (thorough), sampled + boundary indices for q = 7..16; conversions d<=3, q<=3, '
+          'r<=5, 4 (e, cap) settings; sums of K <= 3 exponentials (exact QTT rank K) with caps K..K+2, q <= 5')
 
 
 def _bits(i, q):
@@ -107,6 +108,81 @@ def tt_qtt_roundtrip(d, q, r, seed, kind, e, cap):
     return PASS if nrm > 0 else TRIVIAL('zero tensor')
 
 
+@clause('C17.ind.large_modes', funcs=('grid.ind_tt_to_qtt', 'grid.ind_qtt_to_tt'))
+def ind_large_modes(d, q, seed):
+    """Mode sizes up to 2^16 (beyond what an exhaustive sweep can visit): boundary indices (0, 2^j - 1, 2^j, n - 1) and
+    random ones against the little-endian bit expansion, both directions, single index = batch of one."""
+    n = 2 ** q
+    g = gen.rng('C17.large', seed)
+    special = sorted({0, n - 1} | {2 ** j for j in range(q)} | {2 ** j - 1 for j in range(1, q + 1)})
+    cols = [np.concatenate([g.permutation(special), g.integers(0, n, size=40)]) for _ in range(d)]
+    I = np.stack(cols, axis=1).astype(int)
+    want = np.array([[b for i in row for b in _bits(int(i), q)] for row in I], dtype=int).reshape(len(I), d * q)
+    got = teneva.ind_tt_to_qtt(I, n)
+    if got.shape != want.shape or not np.array_equal(got, want):
+        bad = int(np.argmax((np.asarray(got).reshape(want.shape) != want).any(axis=1))) if np.shape(got) == want.shape else -1
+        return FAIL(f'bit expansion differs (first bad row {bad}: index {I[bad].tolist() if bad >= 0 else None})')
+    back = teneva.ind_qtt_to_tt(want, q)
+    if np.shape(back) != I.shape or not np.array_equal(back, I):
+        bad = int(np.argmax((np.asarray(back) != I).any(axis=1))) if np.shape(back) == I.shape else -1
+        return FAIL(f'ind_qtt_to_tt differs from sum of bits * 2^j (first bad row {bad}: expected {I[bad].tolist() if bad >= 0 else None}, '
+                    f'got {np.asarray(back)[bad].tolist() if bad >= 0 else np.shape(back)})')
+    for row, w in list(zip(I, want))[::7]:
+        if not np.array_equal(teneva.ind_tt_to_qtt(row, n), w) or not np.array_equal(teneva.ind_qtt_to_tt(w, q), row):
+            return FAIL(f'single index {row.tolist()} differs from batch')
+    return PASS
+
+
+@clause('C17.tt_qtt.capped_exact_rank', funcs=('act_one.tt_to_qtt', 'core.core_tt_to_qtt', 'svd.matrix_svd'))
+def tt_qtt_capped(d, q, K, cap_extra, redundant, seed):
+    """Sums of K separable exponentials have exact QTT rank <= K inside every mode: with a cap >= K (also a cap below the
+    size of the unfoldings, and a TT bond stored with redundant columns) the conversion is exact up to e, the inner bonds
+    obey the cap and the bonds between modes keep the stored TT ranks."""
+    n = 2 ** q
+    g = gen.rng('C17.exp', seed)
+    i = np.arange(n)
+    bases = [g.uniform(0.6, 1.1, size=K) * g.choice([-1.0, 1.0], size=K) for _ in range(d)]
+    V = [b[None, :] ** i[:, None] for b in bases]                       # n x K each
+    if d == 2:
+        if redundant:
+            P, Q = g.normal(size=(K, K)), g.normal(size=(K, K))
+            Y = [np.hstack([V[0], V[0] @ P]).reshape(1, n, 2 * K), np.vstack([V[1].T, Q @ V[1].T]).reshape(2 * K, n, 1)]
+        else:
+            Y = [V[0].reshape(1, n, K), V[1].T.reshape(K, n, 1)]
+    else:
+        mid = np.zeros((K, n, K))
+        for k in range(K):
+            mid[k, :, k] = V[1][:, k]
+        Y = [V[0].reshape(1, n, K), mid, V[2].T.reshape(K, n, 1)]
+    A = gen.dense(Y)
+    cap = K + cap_extra
+    Z = teneva.tt_to_qtt(Y, 1e-10, cap)
+    msg = gen.wf(Z, [2] * (d * q))
+    if msg:
+        return FAIL('qtt not well-formed: ' + msg)
+    for k in range(d * q - 1):
+        bond = Z[k].shape[2]
+        if (k + 1) % q == 0:
+            if bond != Y[(k + 1) // q - 1].shape[2]:
+                return FAIL(f'bond between modes {k}: {bond} != stored TT rank {Y[(k + 1) // q - 1].shape[2]}')
+        elif bond > cap:
+            return FAIL(f'inner bond {k}: {bond} > cap {cap}')
+    B = gen.dense(Z)
+    I = gen.all_indices([n] * d)
+    Iq = np.array([[b for ii in row for b in _bits(int(ii), q)] for row in I]).reshape(len(I), d * q)
+    err = np.linalg.norm(B[tuple(Iq.T)] - A[tuple(I.T)])
+    if not err <= 1e-7 * np.linalg.norm(A):
+        return FAIL(f'QTT[bits(i)] != TT[i] although the cap {cap} is >= the exact rank {K}: rel. err {err / np.linalg.norm(A):.3e}, '
+                    f'ranks {[G.shape[2] for G in Z]}')
+    W = teneva.qtt_to_tt(Z, q)
+    msg = gen.wf(W, [n] * d)
+    if msg:
+        return FAIL('back-converted tt not well-formed: ' + msg)
+    if not np.linalg.norm(gen.dense(W) - A) <= 1e-7 * np.linalg.norm(A):
+        return FAIL('round trip TT -> QTT -> TT changed the tensor')
+    return PASS
+
+
 def cases(tier, seed):
     big = tier == 'thorough'
     lim = 12 if big else 10
@@ -116,6 +192,17 @@ def cases(tier, seed):
                 yield 'C17.ind.exhaustive', dict(d=d, q=q)
     for n in range(2, 70 if big else 40):
         yield 'C17.ind.raise', dict(n=n)
+    for d in (1, 2, 3):
+        for q in range(7, 17):
+            for s_ in range(2 if big else 1):
+                yield 'C17.ind.large_modes', dict(d=d, q=q, seed=s_)
+    for d, qs in ((2, (3, 4, 5)), (3, (3, 4))):
+        for q in qs:
+            for K in (1, 2, 3):
+                for cap_extra in (0, 1, 2):
+                    for redundant in ((False, True) if d == 2 else (False,)):
+                        for s_ in range(2 if big else 1):
+                            yield 'C17.tt_qtt.capped_exact_rank', dict(d=d, q=q, K=K, cap_extra=cap_extra, redundant=redundant, seed=s_)
     g = gen.rng('C17', seed)
     for d in (2, 3):
         for q in (1, 2, 3):
